@@ -136,8 +136,54 @@ def case_redirect(url, iface):
     return v
 
 
+CTORS = ["Response", "PlainTextResponse", "HTMLResponse", "JSONResponse", "RedirectResponse", "StreamResponse", "SendEventResponse"]
+
+
+def case_ctor(cls, headers, iface):
+    """headers given to a response constructor: either rejected there (ValueError) or emitted without CR / LF / NUL"""
+    import baize.wsgi as W
+    import baize.asgi as A
+    mod = W if iface == "wsgi" else A
+    hs = dict(headers)
+    try:
+        if cls == "Response":
+            resp = mod.Response(200, hs)
+        elif cls in ("PlainTextResponse", "HTMLResponse"):
+            resp = getattr(mod, cls)("body", 200, hs)
+        elif cls == "JSONResponse":
+            resp = mod.JSONResponse({"a": 1}, 200, hs)
+        elif cls == "RedirectResponse":
+            resp = mod.RedirectResponse("/t", 307, hs)
+        elif cls == "StreamResponse":
+            if iface == "wsgi":
+                resp = mod.StreamResponse(iter([b"x"]), 200, hs)
+            else:
+                async def gen():
+                    yield b"x"
+                resp = mod.StreamResponse(gen(), 200, hs)
+        else:
+            if iface == "wsgi":
+                resp = mod.SendEventResponse(iter([]), 200, hs)
+            else:
+                async def gen2():
+                    return
+                    yield
+                resp = mod.SendEventResponse(gen2(), 200, hs)
+    except ValueError:
+        dirty = any(c in k + val for k, val in hs.items() for c in BAD)
+        return [] if dirty else ["clean constructor headers %r were rejected" % (hs,)]
+    except Exception as e:  # noqa
+        return ["constructor raised %r" % e]
+    lines, exc = emitted_lines(resp, iface)
+    if lines is None:
+        return [] if isinstance(exc, UnicodeEncodeError) else ["emission raised %r" % exc]
+    return check_lines(lines)
+
+
 def replay(inputs):
     k = inputs["kind"]
+    if k == "ctor":
+        return {"violated": case_ctor(inputs["cls"], [tuple(h) for h in inputs["headers"]], inputs["iface"])}
     if k == "mapping":
         return {"violated": case_mapping([tuple(o) for o in inputs["ops"]], inputs["iface"])}
     if k == "cookie":
@@ -191,8 +237,22 @@ def bounded(tier, seed):
             distinct.add((iface, "redirect", url))
             if v and len(failures) < 10:
                 failures.append({"inputs": {"kind": "redirect", "url": url, "iface": iface}, "violated": v})
+        # headers handed to a constructor (the mapping is built by MutableHeaders.__init__, not by __setitem__)
+        cvals = ["v", "a\r\nX-Evil: 1", "a\nb", "\0", "x\ry"] + (dirty[:40] if tier == "thorough" else dirty[:6])
+        for cls in CTORS:
+            for hk in ("X-K", "x\nk", "Content-Type"):
+                for val in cvals:
+                    for extra in ((), (("x-k", "w\r\n"),)):
+                        evals += 1
+                        hs = [(hk, val)] + list(extra)
+                        v = case_ctor(cls, hs, iface)
+                        distinct.add((iface, "ctor", cls, hk, val, extra))
+                        if v and len(failures) < 10:
+                            failures.append({"inputs": {"kind": "ctor", "cls": cls, "headers": [list(h) for h in hs], "iface": iface},
+                                             "violated": v})
     return {"evaluations": evals, "distinct_nontrivial": len(distinct), "failures": failures, "samples": samples,
-            "rule": "every string up to length %d over {a, CR, LF, NUL, ';', ',', '=', '\"', '\\\\', e-acute, euro, space} as header "
+            "rule": "constructor-supplied headers with CR / LF / NUL in name or value on every bundled response class (rejected at "
+                    "construction or emitted clean); every string up to length %d over {a, CR, LF, NUL, ';', ',', '=', '\"', '\\\\', e-acute, euro, space} as header "
                     "value through item assignment / append / update / setdefault (single and in sequences), as cookie name "
                     "and value, and as redirect target, on both interfaces; emitted header lines are inspected on a recording "
                     "server; non-trivial = input containing CR, LF or NUL (mapping) / any cookie / any redirect"
